@@ -175,7 +175,8 @@ def judge_history(op, hist, known=None):
                         f"got the earlier call's outcome instead of its own: " + what)
             else:
                 key = "history:" + key
-        seen.append(outcome)
+        if key is None:  # only a correctly answered earlier call can be "repeated" stalely
+            seen.append(outcome)
         out.append((i, key, what, info, call, sp))
     return out
 
